@@ -146,6 +146,11 @@ func BaseConfig(inst string) config.Config {
 		MemoryDownloadedSnapshots:   2,
 		MemoryDecompressedSnapshots: 2,
 		LMDBs:                       map[string]config.LMDB{},
+		// the shipped defaults (config.Default): sweeper and cleaner disabled, but with their parameters set
+		Sweeper: config.Sweeper{Enabled: false, RetentionDays: 370, Interval: 6 * time.Hour, FirstInterval: 10 * time.Minute,
+			LockDuration: 50 * time.Millisecond, ReleaseDuration: 50 * time.Millisecond},
+		Storage: config.Storage{Cleanup: config.Cleanup{Enabled: false, Interval: 5 * time.Minute, MustKeepInterval: 10 * time.Minute,
+			RemoveOldInstancesInterval: 7 * 24 * time.Hour}},
 	}
 }
 
